@@ -787,14 +787,7 @@ public:          // need to be public due to CRTP
   /////////////// NONLINEAR FUNCTIONS ////////////////
   ////////////////////////////////////////////////////
   EExpr VisitPowConstExp(BinaryExpr e) {
-    auto c = Cast<NumericConstant>(e.rhs()).value();
-    if (2.0==c && IfQuadratizePow2()) {
-      auto el = Convert2EExpr(e.lhs());
-      return QuadratizeOrLinearize(el, el);
-    }
-    return AssignResult2Args( PowConstraint(
-      PowConstraint::Arguments{ Convert2Var(e.lhs()) },
-      PowConstraint::Parameters{ c } ) );
+    return VisitPow(e);     // checks that the exponent is constant
   }
 
   EExpr VisitPow2(UnaryExpr e) {
@@ -820,8 +813,10 @@ public:          // need to be public due to CRTP
               PowConstraint::Arguments{ Convert2Var(std::move(el)) },
               PowConstraint::Parameters{ er.constant_term() } ) );
     }
-    else if (el.is_constant())
-      return VisitPowConstBase(e);
+    else if (el.is_constant())    // may be a constant expression
+      return AssignResult2Args( ExpAConstraint(
+        ExpAConstraint::Arguments{ Convert2Var(std::move(er)) },
+        ExpAConstraint::Parameters{ el.constant_term() } ) );
     else
       MP_RAISE("Unsupported: operator ^ with variable base and exponent");
   }
@@ -837,9 +832,7 @@ public:          // need to be public due to CRTP
   }
 
   EExpr VisitPowConstBase(BinaryExpr e) {
-    return AssignResult2Args( ExpAConstraint(
-      ExpAConstraint::Arguments{ Convert2Var(e.rhs()) },
-      ExpAConstraint::Parameters{ Cast<NumericConstant>(e.lhs()).value() } ) );
+    return VisitPow(e);     // checks that the base is constant
   }
 
   EExpr VisitLog(UnaryExpr e) {
